@@ -365,3 +365,21 @@ func SnapshotEKR(e *appencryption.EnvelopeKeyRecord) string {
 	b, _ := json.Marshal(sn)
 	return string(b)
 }
+
+// CopyRows returns deep copies of all stored records, in insertion order.
+func (s *Store) CopyRows() []*appencryption.EnvelopeKeyRecord {
+	s.mu.Lock()
+	defer s.mu.Unlock()
+	var res []*appencryption.EnvelopeKeyRecord
+	for _, r := range s.order {
+		cp := *r.Rec
+		cp.ID = r.ID
+		cp.EncryptedKey = append([]byte(nil), r.Rec.EncryptedKey...)
+		if r.Rec.ParentKeyMeta != nil {
+			pm := *r.Rec.ParentKeyMeta
+			cp.ParentKeyMeta = &pm
+		}
+		res = append(res, &cp)
+	}
+	return res
+}
